@@ -119,14 +119,14 @@ def run_updates(cfg, req_file, price_file, lazy: bool, stations, nsteps: int):
     env = Environment(config=cfg, mechatronics=_mechatronics(), chargers=_chargers(), reporter=CapturingReporter())
     rn = HaversineRoadNetwork(sim_h3_resolution=15)
     sim = build_sim(env, rn, stations=[mk(env, rn) for mk in stations], start=int(cfg.sim.start_time))
-    upd = Update(
-        (
-            ChargingPriceUpdate.build(price_file, CHARGERS_FILE, lazy_file_reading=lazy),
-            UpdateRequestsFromFile.build(req_file, None, lazy_file_reading=lazy),
-            CancelRequests(),
-        ),
-        StepSimulation.from_tuple(()),
+    # the update functions are built the way the scenario loader builds them: Update.build from a configuration that names the
+    # files, the reading mode and the run's start time (a direct call of the two builders is a path no scenario takes)
+    cfg_files = cfg._replace(
+        input_config=cfg.input_config._replace(requests_file=req_file, rate_structure_file=None, charging_price_file=price_file, chargers_file=CHARGERS_FILE),
+        global_config=cfg.global_config._replace(lazy_file_reading=lazy),
     )
+    env = env._replace(config=cfg_files)
+    upd = Update.build(cfg_files, ())
     rp = RunnerPayload(sim, env, upd)
     per_step = []
     try:
